@@ -26,10 +26,10 @@ ASSUMPTIONS = [
     "non-termination is approximated by a 10 s wall-clock guard per byte string (normal decode time << 1 ms), confirmed with 30 s before it is reported",
     "truncation clause only for descriptions without objects that the end of the PDU may terminate (MIN-MAX-LENGTH values, end-of-pdu / end-marker fields); 'value-carrying' = bits claimed by a parameter in the reference's used mask",
 ]
-MUST_HIT = ["truncation-clause:announced-extent", "truncation-inside-field-item", "layer-case", "prefix", "mutation", "short", "random", "overlong", "entry:obj", "entry:layer", "entry:service",
+MUST_HIT = ["tail-default-value", "truncation-clause:announced-extent", "truncation-inside-field-item", "layer-case", "prefix", "mutation", "short", "random", "overlong", "entry:obj", "entry:layer", "entry:service",
             "entry:decode_response", "regime:error", "regime:default", "outcome:DecodeError", "outcome:returned",
             "truncation-clause", "somersault"]
-DYNAMIC = {"dct:minmax", "dct:leading", "dct:paramlen", "dlfield", "eopf", "mux", "emfield", "table"}
+DYNAMIC = {"dct:minmax", "dct:leading", "dct:paramlen", "dlfield", "eopf", "mux", "emfield", "table", "envdata"}
 TRUNC_AMBIGUOUS = {"dct:minmax", "eopf", "emfield"}
 ALPHABET = [0x00, 0x01, 0x7F, 0x80, 0xFF]
 
@@ -170,6 +170,8 @@ def eval_case(case, res: core.ShardResult | None = None, kf=None, budget: int = 
     for kind, data in strings:
         for regime in ("default", "error"):
             cls = {kind, "regime:" + regime}
+            if "tail-default-value" in feats:
+                cls.add("tail-default-value")
             if lv is not None and len(data) < lv and (kind == "prefix" or not (feats & DYNAMIC)):
                 cls.add("truncation-clause")
                 if feats & DYNAMIC:
@@ -453,7 +455,18 @@ def case_strategy():
 
     @st.composite
     def s(draw):
-        c = draw(gen.message_case(opts={"table_struct_first": True}))
+        c = draw(gen.message_case(opts={"table_struct_first": True, "texttable_pct": 30}))
+        if not (set(c["features"]) & (DYNAMIC | {"nrc", "table-struct-listed-first"})) and draw(st.integers(0, 9)) < 3:
+            # a trailing parameter whose compu method has a COMPU-DEFAULT-VALUE: a PDU that ends before or inside
+            # it must be rejected, not completed with the default text
+            bl = draw(st.sampled_from([8, 12, 16]))
+            n = draw(st.integers(1, 3))
+            rows = [[i * 2, i * 2, f"t{i}"] for i in range(n)]
+            d = {"k": "simple", "id": "dop_taildflt", "dct": {"t": "std", "bt": "A_UINT32", "bl": bl, "enc": None, "hl": None},
+                 "compu": {"c": "TEXTTABLE", "rows": rows, "default": "dflt"}, "pt": "A_UNICODE2STRING"}
+            c["msg"]["params"].append({"pk": "value", "name": "p_taildflt", "pos": None, "bit": 0, "dop": d, "default": None})
+            c["values"]["p_taildflt"] = draw(st.sampled_from([r[2] for r in rows]))
+            c["features"] = sorted(set(c["features"]) | {"compu:TEXTTABLE", "compu:default-value", "tail-default-value"})
         c["random"] = draw(st.lists(st.binary(min_size=0, max_size=24), min_size=2, max_size=6))
         return c
     return s()
